@@ -44,8 +44,13 @@ NOSYN_STYLES = ["--minus-style", "red", "--minus-emph-style", "bold red 52", "--
                 "--whitespace-error-style", "magenta reverse"]
 
 
-def make_diff(name, lines_minus, lines_plus, ctx):
-    out = [f"diff --git a/{name} b/{name}", "index 1111111..2222222 100644", f"--- a/{name}", f"+++ b/{name}",
+def make_diff(name, lines_minus, lines_plus, ctx, form="git"):
+    if form == "diffu":
+        # plain `diff -u` output: no `diff --git` line, time stamps after a tab
+        head = [f"--- a/{name}\t2020-01-01 00:00:00.000000000 +0000", f"+++ b/{name}\t2020-01-02 00:00:00.000000000 +0000"]
+    else:
+        head = [f"diff --git a/{name} b/{name}", "index 1111111..2222222 100644", f"--- a/{name}", f"+++ b/{name}"]
+    out = head + [
            f"@@ -1,{len(ctx) + len(lines_minus)} +1,{len(ctx) + len(lines_plus)} @@ {ctx[0] if ctx else ''}"]
     out += [" " + c for c in ctx] + ["-" + l for l in lines_minus] + ["+" + l for l in lines_plus]
     return ("\n".join(out) + "\n").encode()
@@ -248,6 +253,12 @@ def main(tier, replay=None):
                 other = next((x for x in es if x != e and "." not in x), None)
                 if other:
                     ncases.append({"lang": lang, "n1": e, "n2": "dir/y." + other})
+        # the same language whatever the form of the diff and wherever the path has spaces
+        for ext in ("rs", "py", "cmake", "json"):
+            ncases.append({"lang": "form:" + ext, "n1": "src/count." + ext, "n2": "src/word count." + ext, "form2": "diffu"})
+            ncases.append({"lang": "form:" + ext, "n1": "src/count." + ext, "n2": "new tree/src/count." + ext, "form2": "diffu"})
+            ncases.append({"lang": "form:" + ext, "n1": "src/count." + ext, "n2": "src/tally." + ext, "form1": "diffu", "form2": "git"})
+            ncases.append({"lang": "form:" + ext, "n1": "my dir/a b." + ext, "n2": "src/tally." + ext})
         for dl in (None, "rs", "py"):
             ncases.append({"lang": "default:" + str(dl), "n1": "zz.unknownext", "n2": "qq.otherunk", "default": dl})
             if dl:
@@ -258,8 +269,8 @@ def main(tier, replay=None):
         for k in SNIPPETS:
             snip += SNIPPETS[k]
         res = []
-        for nm in (c["n1"], c["n2"]):
-            inp = make_diff(nm, snip[:6], snip[6:12], [snip[12]])
+        for nm, form in ((c["n1"], c.get("form1", "git")), (c["n2"], c.get("form2", "git"))):
+            inp = make_diff(nm, snip[:6], snip[6:12], [snip[12]], form)
             args = ["--syntax-theme", "Monokai Extended", "--hunk-header-style", "omit"]
             if c.get("default"):
                 args += ["--default-language", c["default"]]
